@@ -488,7 +488,9 @@ _SHAPES = ['A OP', 'A OP OP B', 'A OP OTHER B', 'OP A', 'OP', '( A', 'A )', '( )
            '( OP A )', 'A OP ( B', 'A OP ( )', 'A OP B )', '( A ) )', '( ( A )', 'A OP ) B', 'A ( B )', '( A ) ( B )',
            'A OP !', '!', '( ! )', '! OP A', '! ! OP A', '( A OP B', '( A OP B ) OP', 'A OP ( B OP )',
            '( A || B NL &&', '( ( A || B NL && )', '( A || B NL && NL', '( A && B NL ||', '( A && B NL || )',
-           '( A || B NL ||', '( A && B NL &&']
+           '( A || B NL ||', '( A && B NL &&',
+           # `#` = the operator with one character too few, `##` = one too many - at the first and at later positions
+           'A # B', 'A OP B # A', 'A OP B # A OP B', '( A OP B NL # A )', 'A OP ( B # A )', 'A ## B', 'A OP B ## A']
 _FIXED_CTX = {'im': ['def', 'exit-code', 'num-lines'], 'lm': ['def', 'every-line', 'filter'],
               'tm': ['def', 'stdout', 'contents', 'fm-contents'], 'fm': ['def', 'exists', 'every-file'],
               'fsm': ['def', 'dir-contents', 'fm-dir-contents'], 'tr': ['def', 'file', 'tm-transformed']}
@@ -502,13 +504,15 @@ def enum_malformed(tier):
         for ctx in _FIXED_CTX[host]:
             full = ctx in FULL_CONTEXTS
             for shape in _SHAPES:
-                if host == 'tr' and ('!' in shape or '&&' in shape or '||' in shape):
+                if host == 'tr' and ('!' in shape or '&&' in shape or '||' in shape or
+                                     ('#' in shape and '##' not in shape)):
                     continue
                 for op in ops:
                     other = ops[-1] if op == ops[0] else ops[0]
                     if ('OTHER' in shape and other == op) or ('OP' not in shape and op != ops[0]):
                         continue
                     s = shape.replace('OTHER', other).replace('OP', op).replace('A', a).replace('B', b).replace('NL', '\n')
+                    s = s.replace('##', op + op[0]).replace('#', op[0])
                     if not full:
                         s = '( ' + s + ' )'  # a compound operand of a simple position is parenthesised
                     for trailer in (0, 1):
